@@ -262,7 +262,7 @@ func cidrObs(n net.IPNet) map[string]any {
 }
 
 func checkC18(r *Run) {
-	gen := fmt.Sprintf("---- MODULE Gen_ClientIP ----\nGenMaxLines == 2\nGenMaxEntries == %d\nGenMaxPrefix == 2\nGenWithEmpty == TRUE\n====\n", pick(r, 2, 3))
+	gen := fmt.Sprintf("---- MODULE Gen_ClientIP ----\nGenMaxLines == 2\nGenMaxEntries == %d\nGenMaxPrefix == %d\nGenWithEmpty == TRUE\n====\n", pick(r, 2, 3), pick(r, 2, 1))
 	setups := map[string]*ipSetup{"X-Forwarded-For": newIPSetup(clientip.XForwardedForKey), "Forwarded": newIPSetup(clientip.ForwardedKey)}
 	var vecs, evals atomic.Int64
 	ch := make(chan ipVec, 256)
